@@ -201,8 +201,8 @@ def project_date(spec: Spec, tmpl, v, two_digit_year_max=30):
     return (pcid, py, pm, pd)
 
 
-def project_datetime(spec: Spec, tmpl, v, ampm_carried=True):
-    d = project_date(spec, tmpl[:4], v[:4])
+def project_datetime(spec: Spec, tmpl, v, ampm_carried=True, tdy=30):
+    d = project_date(spec, tmpl[:4], v[:4], tdy)
     if d is None:
         return None
     return d + project_time(spec, tmpl[4:], v[4:], ampm_carried)
@@ -255,14 +255,14 @@ def project_duration(spec: Spec, v):
     return out
 
 
-def project(spec: Spec, tmpl, v, ampm_carried=True):
+def project(spec: Spec, tmpl, v, ampm_carried=True, tdy=30):
     k = spec.kind
     if k == "time":
         return project_time(spec, tmpl, v, ampm_carried)
     if k == "date":
-        return project_date(spec, tmpl, v)
+        return project_date(spec, tmpl, v, tdy)
     if k in ("datetime", "instant"):
-        return project_datetime(spec, tmpl, v, ampm_carried)
+        return project_datetime(spec, tmpl, v, ampm_carried, tdy)
     if k == "annual":
         return project_annual(spec, tmpl, v)
     if k == "offset":
